@@ -74,6 +74,7 @@ type Job struct {
 
 	mu  sync.Mutex
 	res JobResult
+	crossDone int
 }
 
 type JobResult struct {
@@ -148,7 +149,13 @@ func (j *Job) noteUnknown(site string) {
 func (j *Job) noteDischarged(it *Interp, c *Term, msg string) {
 	sz := it.ctx.Size(c)
 	var cross string
-	if j.Cross {
+	j.mu.Lock()
+	doCross := j.Cross && j.crossDone < 40
+	if doCross {
+		j.crossDone++
+	}
+	j.mu.Unlock()
+	if doCross {
 		script := it.sol.Script(it.ctx.Not(c))
 		var others []string
 		for _, k := range []string{"z3-new", "z3", "cvc5"} {
